@@ -30,13 +30,22 @@ def demo_passes(cmd):
 
 
 def main():
-    for pid in sys.argv[1:]:
-        src = "/tmp/seed-out/" + pid
+    args = sys.argv[1:]
+    srcroot, offset = "/tmp/seed-out", 0
+    while args and args[0].startswith("--"):
+        if args[0] == "--src":
+            srcroot = args[1]
+        elif args[0] == "--offset":
+            offset = int(args[1])
+        args = args[2:]
+    for pid in args:
+        src = os.path.join(srcroot, pid)
         wt = "/tmp/seed/" + pid
         metas = json.load(open(os.path.join(src, "meta.json")))
         for n, m in enumerate(metas, 1):
             sh("git checkout -- . && git clean -fdq", cwd=wt)
             cmd = m["how_to_run_demo"].split("   (")[0].strip()
+            m["demo"] = m["demo"].split(" ")[0]
             patch = os.path.join(src, m["patch"])
             res = {"demo_passes_clean": None, "demo_fails_patched": None, "suite_passes_with_patch": None}
             ok, out1 = demo_passes(cmd)
@@ -60,7 +69,7 @@ def main():
                 print("  patched demo tail:", out2[-400:].replace("\n", " | "))
                 print("  suite:", bad[:5], outb[-300:])
                 continue
-            dst = os.path.join(here, "seeded", "%s-%d" % (pid, n))
+            dst = os.path.join(here, "seeded", "%s-%d" % (pid, n + offset))
             shutil.rmtree(dst, ignore_errors=True)
             os.makedirs(dst)
             shutil.copy(patch, os.path.join(dst, "patch.diff"))
